@@ -60,6 +60,10 @@ func reflPath(id string) func(r *Runner) {
 	}
 }
 
+// quickCorpus: C03 and C04 explore the quick corpus on both tiers (the thorough tier deepens the value bounds
+// only): over the 229 thorough types a calibration run did not finish C03 within an hour.
+func quickCorpus(tier string, seed int64) []Inst { return Corpus("quick", seed) }
+
 func propSpecs() map[string]*PropSpec {
 	quickBounds := func(tier string) Bounds {
 		b := DefaultBounds
@@ -86,7 +90,7 @@ func propSpecs() map[string]*PropSpec {
 	}
 	add(&PropSpec{ID: "C02", Extra: reflPath("C02"), Title: "Derived Equal is exactly structural equality", Gen: genC02,
 		Outside: []string{"NaN", "cyclic values", "reflect/unsafe path for unexported fields of imported structs beyond the one fixture harness/static/reflpath", "values larger than the bounds"}})
-	add(&PropSpec{ID: "C03", Extra: reflPath("C03"), Title: "Derived Compare is a total order consistent with Equal", Gen: genC03,
+	add(&PropSpec{ID: "C03", Extra: reflPath("C03"), Corpus: quickCorpus, Title: "Derived Compare is a total order consistent with Equal", Gen: genC03,
 		Filter: func(in Inst, tier string) bool {
 			// maps keyed by complex numbers: sorting keys through the generated complex Compare under a symbolic
 			// iteration order does not finish within the solver budget (complex leaves, slices and map VALUES are
@@ -103,7 +107,7 @@ func propSpecs() map[string]*PropSpec {
 			return kind == "trans" && in.Tags["map"]
 		},
 		Outside: []string{"NaN", "cyclic values", "maps keyed by complex numbers", "three-value transitivity over types that contain a map", "reflect/unsafe path for unexported fields of imported structs beyond the one fixture harness/static/reflpath", "values larger than the bounds"}})
-	add(&PropSpec{ID: "C04", Extra: reflPath("C04"), Title: "Derived Hash respects Equal", Gen: genC04, AbstractMul: true,
+	add(&PropSpec{ID: "C04", Extra: reflPath("C04"), Corpus: quickCorpus, Title: "Derived Hash respects Equal", Gen: genC04, AbstractMul: true,
 		SkipKind: func(in Inst, kind, tier string) bool {
 			// the two-independent-values form over nested containers of string-bearing structs needs minutes;
 			// those shapes are covered by premise + rebuild (shared leaves) instead
